@@ -139,6 +139,9 @@ def tdvp_(psi, H,
     else:
         raise YastnError('TDVP: tdvp method %s not recognized' % method)
 
+    if not psi.is_canonical(to='first'):
+        psi.canonize_(to='first', normalize=False)  # the norm is kept in psi.factor
+
     env = None
     if yield_initial:
         yield TDVP_out(times[0], times[0], time_independent, dt, 0)
@@ -294,3 +297,5 @@ def _update_AA(env, bd, du, opts, opts_svd, normalize=True, subtract_E=False, pr
     AA, info = expmv(f, AA, du, **opts, normalize=normalize, return_info=True)
     env._temp['expmv_ncv'][ibd] = info['ncv']
     env.bra.post_2site_(AA, bd, opts_svd)
+    if normalize:
+        env.bra.factor = 1
